@@ -52,6 +52,13 @@ def gen_violation(rnd, in_msg):
         return k, E(8, ref6455.close_payload(1000, rnd.choice([b"", b"{bye} %d "]) + rnd.choice(BAD_UTF8)))
     if in_msg:
         return gen_violation(rnd, in_msg)
+    if rnd.random() < 0.4:
+        # the offending bytes stand in a MIDDLE fragment (after a control frame between the fragments) and the message is never
+        # finished: only control frames follow, then EOF.  The error is due when that fragment arrives.
+        mid = rnd.choice([b"\xff", b"ok\xc0\xaf", b"\xed\xa0\x80", b"caf\xe9 "])
+        ctl = rnd.choice([(9, "ping", b"p"), (10, "pong", b"q")])
+        return (k, E(1, b"start ", fin=0) + E(ctl[0], ctl[2]) + E(0, mid, fin=0), [(ctl[1], ctl[2])],
+                rnd.choice([b"", E(9, b"after"), E(9, b"after") + E(10, b"")]))
     bad = rnd.choice([b"\xe2\x82", b"\xf0\x9f\x98"])
     if rnd.random() < 0.5:
         # the Ping between the fragments is a complete message that precedes the violating continuation frame
@@ -74,6 +81,8 @@ def make_scenario(rnd):
     completed = completed + (list(gv[2]) if len(gv) > 2 else [])
     rest_msgs = [scen.gen_message(rnd, big_ok=False) for _ in range(rnd.choice([0, 1, 2]))]
     rest = scen.render(scen.wire_plan(rnd, rest_msgs)[0])
+    if len(gv) > 3:
+        rest = gv[3]
     stream = scen.HANDSHAKE + scen.render(frames) + bad + rest
     chunks = scen.chunkings(rnd, stream, None if len(stream) < 3000 else "random")
     app = {}
